@@ -37,7 +37,7 @@ var c16Reqs = []c16Req{
 	{"GET u A=1 no-cache", "GET", U, []string{"X-A", "1", "Cache-Control", "no-cache"}},
 }
 
-var c16States = []string{"empty", "fresh", "stale+swr", "stale+must-revalidate", "two-variants"}
+var c16States = []string{"empty", "fresh", "stale+swr", "stale+must-revalidate", "two-variants", "stale+swr bodiless"}
 
 // c16Programs: all unordered pairs (with repetition) and a fixed set of triples.
 func c16Programs() [][]int {
@@ -64,6 +64,12 @@ func c16Prologue(w *world.W, state string, backdate time.Duration) {
 		w.Do(world.Req("GET", U, "X-A", "1"))
 	case "stale+swr":
 		answer(w, mk("max-age=5, stale-while-revalidate=100000"))
+		w.Do(world.Req("GET", U, "X-A", "1"))
+	case "stale+swr bodiless":
+		r := mk("max-age=5, stale-while-revalidate=100000")
+		r.Status, r.Body = 301, []byte{}
+		r.H = append(r.H, [2]string{"Location", c16U2})
+		answer(w, r)
 		w.Do(world.Req("GET", U, "X-A", "1"))
 	case "stale+must-revalidate":
 		answer(w, mk("max-age=5, must-revalidate"))
@@ -262,6 +268,9 @@ func runC16(x *mc.X) {
 			tokB = string(r.body[:i])
 		}
 		outcome = append(outcome, fmt.Sprintf("%d/%s/%s", r.resp.StatusCode, r.snap.Get("X-Httpcache-Status"), tokH))
+		if len(r.body) == 0 && r.bodyErr == nil && tokH != "" && w.Origin.Toks[tokH] != nil && len(w.Origin.Toks[tokH].Body) == 0 {
+			tokB = tokH // a bodiless representation: the header token is all there is
+		}
 		if r.bodyErr != nil || tokH != tokB {
 			x.Failf("response not self-consistent (header token vs body token)", "%s: X-Tok=%q body=%q err=%v", who, tokH, clipB(r.body), r.bodyErr)
 			continue
